@@ -1,0 +1,192 @@
+//go:build verif
+
+package kernel
+
+import (
+	"encoding/binary"
+
+	"github.com/MixinNetwork/mixin/common"
+	"github.com/MixinNetwork/mixin/config"
+	"github.com/MixinNetwork/mixin/crypto"
+	"github.com/MixinNetwork/mixin/storage"
+)
+
+// Verification hooks for the mint schedule and distribution check (C25).
+// Thin wrappers only: every amount is computed by the unmodified functions of
+// mint.go.  The node they run on is a bare Node whose store answers the few
+// reads of the mint path from injected values; any other store method
+// dereferences the nil embedded interface and panics.
+
+type verifC25Store struct {
+	storage.Store
+	works  map[uint32]map[crypto.Hash][2]uint64
+	spaces map[crypto.Hash]*common.RoundSpace
+	dist   *common.MintDistribution
+	last   *common.Snapshot
+}
+
+func (s *verifC25Store) ListNodeWorks(cids []crypto.Hash, day uint32) (map[crypto.Hash][2]uint64, error) {
+	out := make(map[crypto.Hash][2]uint64)
+	for _, id := range cids {
+		out[id] = s.works[day][id]
+	}
+	return out, nil
+}
+
+func (s *verifC25Store) ListAggregatedRoundSpaceCheckpoints(cids []crypto.Hash) (map[crypto.Hash]*common.RoundSpace, error) {
+	out := make(map[crypto.Hash]*common.RoundSpace)
+	for _, id := range cids {
+		if sp := s.spaces[id]; sp != nil {
+			out[id] = sp
+		}
+	}
+	return out, nil
+}
+
+func (s *verifC25Store) ReadNodeRoundSpacesForBatch(nodeId crypto.Hash, batch uint64) ([]*common.RoundSpace, error) {
+	return nil, nil
+}
+
+func (s *verifC25Store) ReadLastMintDistribution(batch uint64) (*common.MintDistribution, error) {
+	return s.dist, nil
+}
+
+func (s *verifC25Store) ReadLastConsensusSnapshot() (*common.Snapshot, error) {
+	return s.last, nil
+}
+
+// VerifC25Input describes the injected environment of one mint computation.
+type VerifC25Input struct {
+	Epoch     uint64
+	Timestamp uint64
+	// number of accepted nodes handed to the distribution
+	Nodes int
+	// number of nodes the consensus threshold is computed from (0 = Nodes)
+	ConsensusBase int
+	// per accepted node: [lead, sign] of the previous day (the distribution
+	// input) and of the current day (readiness of the aggregators)
+	WorksPrev [][2]uint64
+	WorksNow  [][2]uint64
+	// per accepted node: batch of its aggregated round space checkpoint;
+	// nil = every node is at the current batch
+	SpaceBatch []uint64
+	// last recorded mint distribution; LastBatch 0 = none recorded
+	LastBatch  uint64
+	LastAmount common.Integer
+}
+
+func verifC25Id(i int) crypto.Hash {
+	var b [8]byte
+	binary.BigEndian.PutUint64(b[:], uint64(i)+1)
+	return crypto.Blake3Hash(append([]byte("VERIFC25NODE"), b[:]...))
+}
+
+func verifC25Node(in *VerifC25Input) (*Node, []*CNode) {
+	store := &verifC25Store{
+		works:  make(map[uint32]map[crypto.Hash][2]uint64),
+		spaces: make(map[crypto.Hash]*common.RoundSpace),
+		last:   &common.Snapshot{Version: common.SnapshotVersionCommonEncoding},
+	}
+	store.last.AddTransaction(crypto.Blake3Hash([]byte("VERIFC25LAST")))
+	if in.LastBatch > 0 {
+		store.dist = &common.MintDistribution{MintData: common.MintData{
+			Group: "UNIVERSAL", Batch: in.LastBatch, Amount: in.LastAmount}}
+	}
+	base := in.ConsensusBase
+	if base == 0 {
+		base = in.Nodes
+	}
+	total := max(base, in.Nodes)
+	all := make([]*CNode, total)
+	genesis := make(map[crypto.Hash]bool)
+	for i := range all {
+		seed := make([]byte, 64)
+		binary.BigEndian.PutUint64(seed, uint64(i)+1)
+		signer := common.NewAddressFromSeedInternalVanish(seed)
+		seed[63] = 1
+		payee := common.NewAddressFromSeedInternalVanish(seed)
+		all[i] = &CNode{
+			IdForNetwork: verifC25Id(i),
+			Signer:       signer,
+			Payee:        payee,
+			State:        common.NodeStateAccepted,
+		}
+		genesis[all[i].IdForNetwork] = true
+	}
+	accepted := all[:in.Nodes]
+	day := uint32(in.Timestamp / OneDay)
+	prev, now := make(map[crypto.Hash][2]uint64), make(map[crypto.Hash][2]uint64)
+	epochDay := in.Epoch / OneDay
+	for i, n := range accepted {
+		if i < len(in.WorksPrev) {
+			prev[n.IdForNetwork] = in.WorksPrev[i]
+		}
+		if i < len(in.WorksNow) {
+			now[n.IdForNetwork] = in.WorksNow[i]
+		}
+		sb := uint64(day) - epochDay
+		if in.SpaceBatch != nil {
+			sb = in.SpaceBatch[i]
+		}
+		store.spaces[n.IdForNetwork] = &common.RoundSpace{NodeId: n.IdForNetwork, Batch: sb}
+	}
+	store.works[day-1] = prev
+	store.works[day] = now
+	node := &Node{
+		Epoch:                      in.Epoch,
+		persistStore:               store,
+		genesisNodesMap:            genesis,
+		nodeStateSequences:         []*NodeStateSequence{{Timestamp: 0, NodesWithoutState: all[:base]}},
+		acceptedNodeStateSequences: []*NodeStateSequence{{Timestamp: 0, NodesWithoutState: accepted}},
+	}
+	node.networkId, _ = crypto.HashFromString(config.KernelNetworkId)
+	return node, accepted
+}
+
+func VerifC25MintBatchSize(batch uint64) common.Integer { return mintBatchSize(batch) }
+
+func VerifC25MintMultiBatchesSize(old, batch uint64) common.Integer {
+	return mintMultiBatchesSize(old, batch)
+}
+
+func VerifC25PoolSizeUniversal(batch int) common.Integer { return poolSizeUniversal(batch) }
+
+// VerifC25Threshold is the consensus threshold the distribution compares the
+// number of working nodes with.
+func VerifC25Threshold(in *VerifC25Input) int {
+	node, _ := verifC25Node(in)
+	return node.ConsensusThreshold(in.Timestamp, false)
+}
+
+// VerifC25Distribute runs distributeKernelMintByWorks on the injected works.
+func VerifC25Distribute(in *VerifC25Input, base common.Integer) ([]common.Integer, error) {
+	node, accepted := verifC25Node(in)
+	mints, err := node.distributeKernelMintByWorks(accepted, base, in.Timestamp)
+	if err != nil {
+		return nil, err
+	}
+	out := make([]common.Integer, len(mints))
+	for i, m := range mints {
+		out[i] = m.Work
+	}
+	return out, nil
+}
+
+// VerifC25BuildMint runs the whole buildUniversalMintTransaction; nil = no
+// mint transaction.
+func VerifC25BuildMint(in *VerifC25Input, custodian *common.Address, validateOnly bool) *common.VersionedTransaction {
+	node, _ := verifC25Node(in)
+	req := &common.CustodianUpdateRequest{Custodian: custodian}
+	return node.buildUniversalMintTransaction(req, in.Timestamp, validateOnly)
+}
+
+// VerifC25Payees lists the payee addresses of the injected accepted nodes in
+// distribution order.
+func VerifC25Payees(in *VerifC25Input) []common.Address {
+	_, accepted := verifC25Node(in)
+	out := make([]common.Address, len(accepted))
+	for i, n := range accepted {
+		out[i] = n.Payee
+	}
+	return out
+}
